@@ -250,3 +250,30 @@ pub fn c13_aux() -> HistProp {
         pressure: false,
     }
 }
+
+/// C10's histories: stateful sequences of valid commands with extreme field values under a moving clock,
+/// judged only for what C10 owns (panics, a valid request refused by the decoder, a command that never returns)
+pub fn c10_aux() -> HistProp {
+    let mut cfg = GenCfg::default();
+    cfg.max_ops = 40;
+    cfg.max_keys = 3;
+    cfg.ttl_nonzero_pct = 60;
+    cfg.cas_nonzero_pct = 60;
+    cfg.w_advance = 20;
+    cfg.w_flushn = 4;
+    cfg.w_counter = 12;
+    cfg.w_stale_writer = 4;
+    cfg.probe_w = [6, 1, 1];
+    HistProp {
+        prop: "C10",
+        cfg,
+        cases_quick: 1500,
+        cases_thorough: 20_000,
+        rule: "",
+        nontrivial: |_c, r| r.f("advanced") > 0 && r.stat.cas_fail_on_live + r.stat.accepted_cond > 0,
+        classes: base_classes,
+        min_nontrivial_pct: 0.0,
+        assumptions: ASSUME_L1,
+        pressure: false,
+    }
+}
